@@ -71,3 +71,29 @@ package apk
 //@   ensures [C15 C14 C02] name: result == old(info.Name) + "_" + apkVersion(old(info.Version), old(info.Prerelease), old(info.VersionMetadata), old(info.Release)) + "_" + archOf(old(info.Arch), old(info.APK.Arch)) + ".apk"
 //@   ensures [C15] extension: strings.HasSuffix(result, a.ConventionalExtension())
 //@   modifies [C11 C12] &info.Arch
+//
+//@ import "strconv"
+//
+//@ spec func optLine(name, value string) string {
+//@     if value == "" { return "" }
+//@     return "\n" + name + " = " + value
+//@ }
+//
+//@ spec func apkControl(info *nfpm.Info, instSize int64, datahash string) string {
+//@     return "pkgname = " + info.Name +
+//@         "\npkgver = " + apkVersion(info.Version, info.Prerelease, info.VersionMetadata, info.Release) +
+//@         "\narch = " + info.Arch +
+//@         "\nsize = " + strconv.FormatInt(instSize, 10) +
+//@         "\npkgdesc = " + strings.Trim(strings.ReplaceAll(info.Description, "\n", "\n  "), " \n") +
+//@         optLine("url", info.Homepage) +
+//@         optLine("maintainer", info.Maintainer) +
+//@         eachStr("\nreplaces = ", info.Replaces, "") +
+//@         eachStr("\nprovides = ", info.Provides, "") +
+//@         eachStr("\ndepend = ", info.Depends, "") +
+//@         optLine("license", info.License) +
+//@         "\ndatahash = " + datahash + "\n"
+//@ }
+//
+//@ func writeControl(w io.Writer, data controlData) (err error)
+//@   requires data.Info != nil
+//@   ensures [C02 C14 C15 C03] control-fields: implies(err == nil, ghostStr(w, "out") == old(ghostStr(w, "out")) + apkControl(data.Info, data.InstalledSize, data.Datahash))
